@@ -849,6 +849,9 @@ class SyncState:  # pylint: disable=too-many-instance-attributes, too-many-publi
         if ent[side].otype == DIRECTORY and prior_path != path and not prior_path is None:
             # changing directory also changes child paths
             for sub, relative in self.get_kids(prior_path, side):
+                if sub is ent:
+                    # the folder itself moved beneath its own prior path: it is not its own child
+                    continue
                 new_path = provider.join(path, relative)
                 if provider.oid_is_path:
                     # TODO: state should not do online hits esp from event manager
